@@ -237,7 +237,7 @@ def desugar_closures(text):
                 p1, b_body = _closure(text, code, *args[0])
                 if p1 is None:
                     raise NoRule('is_some_and closure')
-                new = 'match %s { Some(%s) => %s, None => false }' % (recv, p1, b_body)
+                new = '(match %s { Some(%s) => %s, None => false })' % (recv, p1, b_body)      # (parenthesised: a block-like expression at the start of a statement would end it)
                 end = pc + 1
                 rule = 'D3 Option::is_some_and'
             elif meth == 'filter':
@@ -492,3 +492,34 @@ def desugar_destructuring_assignment(text):
         new = '%slet (%s, %s) =%s; %s = %s; %s = %s;' % (m.group(1), t1, t2, text[m.end():j], m.group(2), t1, m.group(3), t2)
         text = text[:m.start()] + new + text[j + 1:]
         log.append('D21 destructuring assignment to (%s, %s)' % (m.group(2), m.group(3)))
+
+
+# ---------------------------------------------------------------------------------------------
+# D40: `RECV.iter().any(|P| B)` over a Vec / slice  ->  an index loop that stops at the first element for which B holds
+# (Iterator::any short-circuits in the same way).  The loop contract and a ghost hint are supplied by the caller
+# (markers @@ANY_INV@@ / @@ANY_GHOST@@ are left in the text when none is given).
+_ANY = re.compile(r'\.\s*iter\s*\(\s*\)\s*\.\s*any\s*\(')
+
+
+def desugar_iter_any(text, inv='@@ANY_INV@@', ghost='@@ANY_GHOST@@'):
+    n = 0
+    while True:
+        rf = RustFile('<fn>', text)
+        code = rf.code
+        m = None
+        for mm in _ANY.finditer(text):
+            if code[mm.start()]:
+                m = mm
+        if m is None:
+            return text, n
+        po = m.end() - 1
+        pc = _match_close(text, code, po)
+        p, body = _closure(text, code, po + 1, pc)
+        if p is None:
+            raise NoRule('any closure without parameter')
+        recv0 = _recv_start(text, code, m.start())
+        recv = text[recv0:m.start()].rstrip()
+        new = ('{ let oq3_s = %s; let mut oq3_i: usize = 0; let mut oq3_found = false;\n while oq3_i < oq3_s.len() && !oq3_found\n%s\n {\n %s\n let %s = &oq3_s[oq3_i];\n if %s { oq3_found = true; }\n oq3_i += 1;\n }\n oq3_found }'
+               % (recv, inv, ghost, p, body))
+        text = text[:recv0] + new + text[pc + 1:]
+        n += 1
